@@ -82,4 +82,14 @@ def collect(h):
     else:
         raise h.Missing(f"{rel}: the upper bound utils.{fn} of the view Read range has neither of the two known shapes")
     items.append(("view_incbytes_keeps_length", "bool", keeps, rel + " " + fn + " (upper bound of the view Read range)"))
+    # limits of a string/bytes field: the harness gives some trailing columns MaxLen 1024 and the largest allowed
+    rel3 = "pkg/appdef/consts.go"
+    def _u16(txt):
+        txt = txt.strip()
+        m = re.fullmatch(r"uint16\((.+)\)", txt)
+        if m:
+            txt = m.group(1).strip()
+        return 65535 if txt == "math.MaxUint16" else h.go_int(txt)
+    items.append(("view_max_field_len", "N", str(_u16(h.find(rel3, r"^const MaxFieldLength\s*=\s*(.+)$", "MaxFieldLength").group(1))), rel3))
+    items.append(("view_default_field_len", "N", str(_u16(h.find(rel3, r"^const DefaultFieldMaxLength\s*=\s*(.+)$", "DefaultFieldMaxLength").group(1))), rel3))
     return items
